@@ -10,12 +10,20 @@ FUNCS = ["problog.engine_stack.MessageAnyOrder/MessageOrderD/MessageOrderDrc",
          "RandomOrderQueue transcribed from docs/source/engine.rst", "evaluation pipeline as in C01"]
 
 
+def work(item):
+    # C04 states "the same accept/reject decision" (C03: "the same errors"): two runs that both
+    # refuse to answer agree, whatever exception each raises
+    return c03.work(item, errors="reject")
+
+
 def main(tier, seed):
     run = Run("C04", tier, seed, "translation_validation",
               "default engine vs unbuffered depth-first, unbuffered rc-first and seeded random e-message "
               "order; results are rational functions of the symbolic weights, z3 decides identity")
     run.functions = FUNCS
     run.assumptions = ["3 engine modes x seeded random orders (bounded)",
+                       "accept/reject: any exception counts as reject; the exception types of two rejecting "
+                       "runs are not compared (the property states the decision, not the error)",
                        "an instance reported by only one run is accepted iff its value is identically 0"]
     ns = 2 if tier == "quick" else 20
     items = []
@@ -27,10 +35,10 @@ def main(tier, seed):
         descs += [{"engine": "random", "seed": "%s/%s/%d" % (seed, name, k)} for k in range(ns)]
         items.append((name, prog, descs))
     run.bounds = {"skeletons": len(items), "configurations_per_skeleton": 2 + ns}
-    for st in pmap(c03.work, items, item_timeout=120 if tier == "quick" else 900):
+    for st in pmap(work, items, item_timeout=120 if tier == "quick" else 900):
         run.merge(st)
     return run.finish()
 
 
 def replay(obj):
-    return c03.replay(obj)
+    return c03.replay(obj, errors="reject")
